@@ -114,6 +114,9 @@ func c13Exec(item *corpusItem, f func(ctx *plush.Context) (string, error)) (c13R
 		}
 	}
 	ctx := env.context(item.Case.Data)
+	if item.Ctx != nil {
+		item.Ctx(ctx)
+	}
 	o := guarded(5*time.Second, func() (string, error) { return f(ctx) })
 	env.mu.Lock()
 	calls := fmt.Sprintf("%v", env.calls)
@@ -162,6 +165,15 @@ func hashValue(v reflect.Value, seen map[uintptr]bool, depth int) uint64 {
 		w(fmt.Sprint(v.Len()))
 		for i := 0; i < v.Len(); i++ {
 			w(fmt.Sprint(hashValue(v.Index(i), seen, depth+1)))
+		}
+		// the spare capacity of a slice of the tree is the tree's memory too: an execution that appends to
+		// such a slice writes into it (and races with every other execution of the same template)
+		if v.Kind() == reflect.Slice && v.Cap() > v.Len() {
+			full := v.Slice(0, v.Cap())
+			for i := v.Len(); i < full.Len(); i++ {
+				w("spare")
+				w(fmt.Sprint(hashValue(full.Index(i), seen, depth+1)))
+			}
 		}
 	case reflect.Map:
 		hs := []uint64{}
@@ -254,6 +266,10 @@ func c13Soak(c *Ctx, item *corpusItem) {
 	ref, o = c13Exec(item, func(ctx *plush.Context) (string, error) { return t1.Exec(ctx) })
 	if o.Hang || o.Panic != "" {
 		return
+	}
+	// programs over self-describing data: the result is known, whatever was rendered earlier in this process
+	if item.Want != "" && ref.Out != item.Want {
+		c.Fail("depends-on-earlier-renders:"+item.Label, fmt.Sprintf("%s rendered %q (error %q); rendered first in a process it gives %q", src, ref.Out, ref.Err, item.Want), cas)
 	}
 	for i := 0; i < 2; i++ {
 		r, o := c13Exec(item, func(ctx *plush.Context) (string, error) { return t1.Exec(ctx) })
